@@ -60,6 +60,13 @@ func genString(r *core.Rand, xmlSafe bool) string {
 	if r.Chance(1, 40) {
 		return strings.Repeat("a", 40000) // an entity that compresses several hundred times
 	}
+	if r.Chance(1, 25) {
+		// multi-byte characters around the buffer sizes code likes to use: an ASCII run of 0-3 bytes shifts the
+		// 2-, 3- and 4-byte characters over every alignment of the boundary
+		size := []int{512, 1024, 4096, 8192, 32768, 65536}[r.Intn(6)]
+		unit := []string{"é", "日", "😀"}[r.Intn(3)]
+		return strings.Repeat("x", r.Intn(4)) + strings.Repeat(unit, size/len(unit)+2)
+	}
 	rs := make([]rune, n)
 	for i := range rs {
 		rs[i] = pool[r.Intn(len(pool))]
@@ -113,7 +120,11 @@ func genEntity(r *core.Rand, xmlSafe bool) rtEntity {
 	if r.Chance(1, 4) {
 		e.U64 = math.MaxUint64
 	}
-	for i := 0; i < r.Range(1, 3); i++ {
+	nl := r.Range(1, 3)
+	if r.Chance(1, 30) {
+		nl = []int{17, 65, 130}[r.Intn(3)] // long lists
+	}
+	for i := 0; i < nl; i++ {
 		e.List = append(e.List, genInner(r, xmlSafe))
 	}
 	for i := 0; i < r.Range(1, 3); i++ {
